@@ -866,65 +866,100 @@ func idString(id connect.CertURI) string {
 	return fmt.Sprintf("unknown-%T", id)
 }
 
-// structural restatement of the URI grammar, independent of ParseCertURI's regular expressions:
-// the escaped path has exactly the keyword / value segments of its kind, no value is empty or
-// contains a raw '/', and the decoded values are the fields of the parsed identity.
-func structureMismatch(u *url.URL, id connect.CertURI) string {
+// indepID / indepParse: an identity parser that shares nothing with connect.ParseCertURI (no
+// regular expressions, no RawPath/Path case split): the escaped path (u.EscapedPath(), i.e. what
+// is on the wire) is split on '/', keywords are compared literally and every value segment is
+// percent-decoded exactly once.  Signing ids and everything else are "not an identity".
+type indepID struct{ kind, host, ap, ns, dc, name string }
+
+func (i indepID) String() string {
+	switch i.kind {
+	case "service":
+		return fmt.Sprintf("service;%s;%s;%s;%s;%s", hx.EncS(i.host), hx.EncS(i.ap), hx.EncS(i.ns), hx.EncS(i.dc), hx.EncS(i.name))
+	case "agent":
+		return fmt.Sprintf("agent;%s;%s;%s;%s", hx.EncS(i.host), hx.EncS(i.ap), hx.EncS(i.dc), hx.EncS(i.name))
+	case "gateway":
+		return fmt.Sprintf("gateway;%s;%s;%s", hx.EncS(i.host), hx.EncS(i.ap), hx.EncS(i.dc))
+	}
+	return fmt.Sprintf("server;%s;%s", hx.EncS(i.host), hx.EncS(i.dc))
+}
+func (i indepID) scope() string {
+	switch i.kind {
+	case "service":
+		return fmt.Sprintf("service/%s/%s/%s/%s", i.ap, i.ns, i.dc, i.name)
+	case "agent":
+		return fmt.Sprintf("agent/%s/%s", i.dc, i.name)
+	case "gateway":
+		return fmt.Sprintf("gateway/%s/%s", i.ap, i.dc)
+	}
+	return "server/" + i.dc
+}
+
+func indepParse(u *url.URL) (indepID, bool) {
+	id := indepID{host: u.Host, ap: "default"}
+	if u.Scheme != "spiffe" {
+		return id, false
+	}
 	segs := strings.Split(u.EscapedPath(), "/")
 	if len(segs) < 2 || segs[0] != "" {
-		return "path does not start with /"
+		return id, false
 	}
 	segs = segs[1:]
-	ap := "default"
+	val := func(raw string) (string, bool) {
+		if raw == "" {
+			return "", false
+		}
+		d, err := url.PathUnescape(raw)
+		return d, err == nil
+	}
+	hadAP := false
 	if len(segs) >= 2 && segs[0] == "ap" {
-		d, err := url.PathUnescape(segs[1])
-		if err != nil || d == "" {
-			return "bad partition segment"
+		d, ok := val(segs[1])
+		if !ok {
+			return id, false
 		}
-		ap, segs = d, segs[2:]
+		id.ap, segs, hadAP = d, segs[2:], true
 	}
-	var keys, vals []string
-	switch v := id.(type) {
-	case *connect.SpiffeIDService:
-		keys, vals = []string{"ns", "dc", "svc"}, []string{v.Namespace, v.Datacenter, v.Service}
-		if v.Partition != ap {
-			return "partition"
-		}
-	case *connect.SpiffeIDAgent:
-		keys, vals = []string{"agent/client/dc", "id"}, []string{v.Datacenter, v.Agent}
-		if v.Partition != ap {
-			return "partition"
-		}
-	case *connect.SpiffeIDMeshGateway:
-		keys, vals = []string{"gateway/mesh/dc"}, []string{v.Datacenter}
-		if v.Partition != ap {
-			return "partition"
-		}
-	case *connect.SpiffeIDServer:
-		keys, vals = []string{"agent/server/dc"}, []string{v.Datacenter}
-		if ap != "default" {
-			return "server id with partition"
-		}
-	default:
-		return "kind"
+	var ok1, ok2, ok3 bool
+	switch {
+	case len(segs) == 6 && segs[0] == "ns" && segs[2] == "dc" && segs[4] == "svc":
+		id.kind = "service"
+		id.ns, ok1 = val(segs[1])
+		id.dc, ok2 = val(segs[3])
+		id.name, ok3 = val(segs[5])
+		return id, ok1 && ok2 && ok3
+	case len(segs) == 6 && segs[0] == "agent" && segs[1] == "client" && segs[2] == "dc" && segs[4] == "id":
+		id.kind = "agent"
+		id.dc, ok1 = val(segs[3])
+		id.name, ok2 = val(segs[5])
+		return id, ok1 && ok2
+	case len(segs) == 4 && segs[0] == "gateway" && segs[1] == "mesh" && segs[2] == "dc":
+		id.kind = "gateway"
+		id.dc, ok1 = val(segs[3])
+		return id, ok1
+	case len(segs) == 4 && !hadAP && segs[0] == "agent" && segs[1] == "server" && segs[2] == "dc":
+		id.kind = "server"
+		id.dc, ok1 = val(segs[3])
+		return id, ok1
 	}
-	var want []string
-	for i, k := range keys {
-		want = append(want, strings.Split(k, "/")...)
-		want = append(want, "\x00"+vals[i])
+	return id, false
+}
+
+// parserDisagreement compares the real ParseCertURI with the independent parser on one URI.
+func parserDisagreement(u *url.URL) string {
+	real, rerr := connect.ParseCertURI(u)
+	realOK := rerr == nil
+	if _, signing := real.(*connect.SpiffeIDSigning); signing {
+		realOK = false
 	}
-	if len(want) != len(segs) {
-		return fmt.Sprintf("%d path segments, the identity has %d", len(segs), len(want))
-	}
-	for i, w := range want {
-		if strings.HasPrefix(w, "\x00") {
-			d, err := url.PathUnescape(segs[i])
-			if err != nil || segs[i] == "" || d != w[1:] {
-				return fmt.Sprintf("segment %d is %q, identity field is %q", i, segs[i], w[1:])
-			}
-		} else if segs[i] != w {
-			return fmt.Sprintf("segment %d is %q, expected keyword %q", i, segs[i], w)
-		}
+	ind, indOK := indepParse(u)
+	switch {
+	case realOK && !indOK:
+		return fmt.Sprintf("ParseCertURI says %s, the URI is not an identity when each segment is decoded once", idString(real))
+	case !realOK && indOK:
+		return fmt.Sprintf("ParseCertURI rejects it (%v), decoded once it is %s", rerr, ind)
+	case realOK && idString(real) != ind.String():
+		return fmt.Sprintf("ParseCertURI says %s, decoded once it is %s", idString(real), ind)
 	}
 	return ""
 }
@@ -1048,6 +1083,13 @@ func (s *sess) doSign(r *hx.RNG, spec csrSpec, ag authzGen, tags []string) bool 
 	op := fmt.Sprintf("sign %s %s %s %s %s %d %s %s", hx.EncBool(mesh), hx.EncBool(aclw), hx.EncList(st), hx.EncList(nt),
 		hx.EncList(ut), nEmails, hx.EncSList(reqDNS), hx.EncSList(reqIPs))
 
+	for _, u := range reqURIs {
+		if why := parserDisagreement(u); why != "" {
+			s.line(op, "parser-disagreement") // keep the failing CSR in the replay
+			s.ops = s.ops[:len(s.ops)-1]
+			s.violate("ca:ParseCertURI-disagrees-with-independent-parse", fmt.Sprintf("CSR URI %s: %s", u, why))
+		}
+	}
 	td := s.trustDomain()
 	s.inSign, s.signOps = true, nil
 	var issued *structs.IssuedCert
